@@ -393,14 +393,33 @@ def rule_bounds(repo, rep):
            'pairwise distances among the distinct points of the pairs')
   f = astutil.inline_helpers(repo, repo.get_func('itml._BaseITML._fit'))
   rep.analysed(f)
-  br = [n for n in f.node.body if isinstance(n, ast.If) and
-        ast.unparse(n.test) in ('bounds is None', 'bounds is not None')]
-  if len(br) != 1:
+  # the statements executed when bounds are given / when they are not: tests
+  # on `bounds` are decided, the walk stops at the prior initialisation
+  def path(env):
+    out = []
+
+    def go(stmts):
+      for s_ in stmts:
+        if isinstance(s_, ast.If):
+          v = astutil.partial_truth(s_.test, env)
+          if v is True:
+            go(s_.body)
+          elif v is False:
+            go(s_.orelse)
+          else:
+            out.append(s_)
+        else:
+          out.append(s_)
+    go(f.node.body)
+    return out
+  given_body = path({'bounds': 1})
+  none_body = path({'bounds': None})
+  br = [n for n in ast.walk(f.node) if isinstance(n, ast.If) and
+        any(isinstance(x, ast.Name) and x.id == 'bounds'
+            for x in ast.walk(n.test))]
+  if not br or given_body == none_body:
     rep.unknown(R, 'ITML._fit:bounds', site(f), 'bounds dispatch not found')
     return
-  none_body, given_body = (br[0].body, br[0].orelse) \
-      if ast.unparse(br[0].test) == 'bounds is None' else \
-      (br[0].orelse, br[0].body)
 
   def dn(e):
     d = repo.dotted(f.module, e)
@@ -478,6 +497,13 @@ def rule_bounds(repo, rep):
   key = 'ITML._fit:default-bounds'
   st_ = [s_ for s_ in none_body if isinstance(s_, ast.Assign) and
          ast.unparse(s_.targets[0]) == 'self.bounds_']
+  if len(st_) == 1 and isinstance(st_[0].value, ast.Name):
+    # stored through a local: take the local's definition on this path
+    import copy as _copy
+    un = astutil.unfold(st_[0].value, none_body, st_[0])
+    st0 = _copy.copy(st_[0])
+    st0.value = un
+    st_ = [st0]
   if len(st_) != 1 or not isinstance(st_[0].value, ast.Call) or \
           dn(st_[0].value.func) != canon('numpy.percentile') or \
           len(st_[0].value.args) != 2:
